@@ -64,6 +64,12 @@ def cases_for(ctx):
             tuples.append(("doc", None, 500, "query($v: String = %s) { f }" % lit))
             tuples.append(("selset", None, 500, "f(a: %s)" % lit))
         tuples.append(("doc", None, 500, '{ f(a: """%s""") }' % x))
+    # (ii'') lexically interesting material (the lexer generators of C03), through the document entry
+    from props import c03 as LX
+    lex = LX.gen_numbers()[:: 23 if quick else 2] + LX.gen_strings(ctx.rng, 150 if quick else 2000) \
+        + LX.gen_blocks(ctx.rng, 80 if quick else 1000) + LX.gen_comments_spreads()
+    for x in lex:
+        tuples.append(("doc", None, 500, "{ f(a: %s) }" % x))
     # (iii) deep nests of each recursive construct around each recursion limit
     tuples += deep_cases()
     if not quick:
